@@ -36,6 +36,12 @@ CHECKS["C09"] = dict(
    text="For every base text (22 smallest corpus files quick / all of tests/, std/, corpus/c11 thorough, plus every expression template bare and parenthesised) and every inter-token gap incl. file start/end, a uniquely tagged comment of each of the 3 kinds is inserted; every variant that parses is formatted once and twice: fmt(fmt(x)) == fmt(x), the output's comment multiset equals the input's, and (outside the import region) so does the order. Failures are keyed by gap kind (comment kind @ enclosing AST node : token before|after).",
    note="Trusted: synt::tokenize finds comments independently of the repo's lexer; width fixed at 100. Many gap kinds are genuinely broken on the pinned tree (known findings C09-K1..K3), so only regressions in the currently-correct gap kinds are detected.",
    design_ref="DESIGN.md §5 C09")
+CHECKS["C05"] = dict(
+   category="exploration",
+   technique="bounded-exhaustive enumeration of token strings, single-edit/truncation neighbourhoods of the corpus, module pairs and nesting ladders (forked workers); oracle: catch_unwind, exit status, watchdog, token-bag comparison",
+   text="All token strings of length <=4 (quick) / <=5 (thorough) over a 30-class alphabet (+18 rare/hostile classes up to length 3/4) in 3 contexts; delete / duplicate / replace-by-class at every token, truncation at every byte and hostile-character insertion at every token start of the 20 smallest (quick) / all (thorough) corpus files; all 256 ordered pairs of two-module snippets; 14 nesting ladders up to depth 512 each rung in a forked process with the CLI's stack. Every input goes through parse, check, both diagnostic renderings, format (when no syntax error) and compile_sources: no panic, no process death, no hang (20 s), and no identifier/literal token lost or invented without a syntax error.",
+   note="'All UTF-8 strings' is not enumerable; the claim is over the listed finite neighbourhoods. 'Reasonably sized' is fixed at nesting depth <= 512.",
+   design_ref="DESIGN.md §5 C05")
 NOT_YET = "check not built yet in this round (planned: see DESIGN.md §5)"
 
 hooks_commits = subprocess.run(["git","-C","/repo","log","--format=%H %s"],capture_output=True,text=True).stdout.splitlines()
